@@ -5,6 +5,7 @@ import (
 	"encoding/hex"
 	"encoding/json"
 	"fmt"
+	"math"
 	"math/rand"
 	"strconv"
 	"strings"
@@ -455,6 +456,22 @@ func otlpAny(v OVal) *otlpCommon.AnyValue {
 		return &otlpCommon.AnyValue{Value: &otlpCommon.AnyValue_BoolValue{BoolValue: v.B}}
 	case "int":
 		return &otlpCommon.AnyValue{Value: &otlpCommon.AnyValue_IntValue{IntValue: v.I}}
+	case "double":
+		return &otlpCommon.AnyValue{Value: &otlpCommon.AnyValue_DoubleValue{DoubleValue: math.Float64frombits(v.F)}}
+	case "bytes":
+		return &otlpCommon.AnyValue{Value: &otlpCommon.AnyValue_BytesValue{BytesValue: []byte(v.S)}}
+	case "arr":
+		a := &otlpCommon.ArrayValue{}
+		for _, x := range v.Items {
+			it := otlpAny(x)
+			if it == nil {
+				it = &otlpCommon.AnyValue{} // an item without a value
+			}
+			a.Values = append(a.Values, it)
+		}
+		return &otlpCommon.AnyValue{Value: &otlpCommon.AnyValue_ArrayValue{ArrayValue: a}}
+	case "kv":
+		return &otlpCommon.AnyValue{Value: &otlpCommon.AnyValue_KvlistValue{KvlistValue: &otlpCommon.KeyValueList{Values: otlpKVs(v.KVs)}}}
 	}
 	return nil
 }
@@ -483,6 +500,12 @@ func otlpPB(c *Case) []byte {
 				z := &otlpLogs.LogRecord{TimeUnixNano: rec.Ts, SeverityText: string(rec.Severity), Attributes: otlpKVs(rec.Attrs)}
 				if rec.Body != nil {
 					z.Body = &otlpCommon.AnyValue{Value: &otlpCommon.AnyValue_StringValue{StringValue: string(*rec.Body)}}
+				}
+				if rec.BodyV != nil {
+					z.Body = otlpAny(*rec.BodyV)
+					if z.Body == nil {
+						z.Body = &otlpCommon.AnyValue{} // a body without a value
+					}
 				}
 				y.LogRecords = append(y.LogRecords, z)
 			}
